@@ -99,7 +99,12 @@ def layouts(tier, parser=False):
                                         continue
                                     multi = style == 3 or style >= 4
                                     out.append({"style": style, "ind": ind, "cind": cind, "n1": n1, "n2": n2 if multi else 0, "cmt": cmt,
-                                                "brk": brk, "xi": xi, "pre": pre, "post": post, "findings": 0})
+                                                "brk": brk, "xi": xi, "pre": pre, "post": post, "findings": 0, "tagged": 0})
+    # the same scalar with an explicit `!!str` tag (Style carries yaml.TaggedStyle as well): every style, one shape each
+    for style in STYLES:
+        for cmt in (0, 2):
+            multi = style == 3 or style >= 4
+            out.append({"style": style, "ind": 2, "cind": 2, "n1": 4, "n2": 3 if multi else 0, "cmt": cmt, "brk": 0, "xi": 0, "pre": 1, "post": 1, "findings": 0, "tagged": 1})
     return out
 
 
@@ -107,16 +112,16 @@ def finding_layouts():
     out = []
     # (a) block header that contains the first value byte: header comment, or chomping indicator '-' / '+'
     for style in (4, 5, 6, 7, 8):
-        out.append({"style": style, "ind": 2, "cind": 2, "n1": 3, "n2": 2, "cmt": 2, "brk": 0, "xi": 0, "pre": 1, "post": 1, "findings": 1})
+        out.append({"style": style, "ind": 2, "cind": 2, "n1": 3, "n2": 2, "cmt": 2, "brk": 0, "xi": 0, "pre": 1, "post": 1, "findings": 1, "tagged": 0})
     # (b) continuation / content lines indented by one column relative to the key
     for style, brk in ((3, 0), (0, 1), (4, 0), (8, 0)):
-        out.append({"style": style, "ind": 2, "cind": 1, "n1": 3, "n2": 2 if style >= 3 else 0, "cmt": 0, "brk": brk, "xi": 0, "pre": 1, "post": 1, "findings": 1})
+        out.append({"style": style, "ind": 2, "cind": 1, "n1": 3, "n2": 2 if style >= 3 else 0, "cmt": 0, "brk": brk, "xi": 0, "pre": 1, "post": 1, "findings": 1, "tagged": 0})
     return out
 
 
 def pname(prefix, p):
     return "%s-%s-i%d-c%d-n%d.%d-m%d-b%d-x%d-p%d%d%s%s" % (prefix, STYLES[p["style"]], p["ind"], p["cind"], p["n1"], p["n2"], p["cmt"], p["brk"], p["xi"],
-                                                      p["pre"], p["post"], ("-lab%d-o%d%d" % (p["lab"], p["offl"], p["offc"])) if "lab" in p else "", "-F" if p["findings"] else "")
+                                                      p["pre"], p["post"], ("-lab%d-o%d%d" % (p["lab"], p["offl"], p["offc"])) if "lab" in p else "", ("-F" if p["findings"] else "") + ("-T" if p.get("tagged") else ""))
 
 
 def diags_jobs(tier):
@@ -142,7 +147,7 @@ def parser_jobs(tier):
             for (ind, cind) in ([(2, 2)] if tier == "quick" else [(0, 2), (2, 2), (2, 4)]):
                 multi = style == 3 or style >= 4
                 q = {"style": style, "ind": ind, "cind": cind, "n1": 2, "n2": 2 if multi else 0, "cmt": 0, "brk": 0, "xi": 0, "pre": 2, "post": 0,
-                     "findings": 0, "field": field, "offl": 0, "offc": 0}
+                     "findings": 0, "field": field, "offl": 0, "offc": 0, "tagged": 0}
                 out.append({"name": "last-%s-%s-i%d-c%d" % (["expr", "for", "kff"][field], STYLES[style], ind, cind), "func": "VerifHarness_ParseRuleLast",
                             "params": q, "unwind": 400, "reach": ["end"], "max_failures": 4, "timeout_s": JOB_TIMEOUT_S})
     return out
